@@ -6,6 +6,7 @@ mod props;
 mod run;
 mod trace;
 mod util;
+mod xver;
 
 use std::io::{Read, Write};
 
@@ -24,7 +25,11 @@ fn main() {
                 writeln!(w, "{}", c).unwrap();
             }
         }
-        Some("run") => {
+        Some("run") | Some("run-threads") => {
+            if args[1] == "run-threads" {
+                let n: usize = args.get(2).and_then(|s| s.parse().ok()).unwrap_or(8);
+                run::THREADS.store(n, std::sync::atomic::Ordering::Relaxed);
+            }
             let mut input = String::new();
             std::io::stdin().read_to_string(&mut input).unwrap();
             // deep recursion of the typed API needs stack; run on a big thread
@@ -33,6 +38,16 @@ fn main() {
                 .spawn(move || run::run_cases(&input))
                 .unwrap();
             let out = h.join().expect("runner thread");
+            let stdout = std::io::stdout();
+            let mut w = std::io::BufWriter::new(stdout.lock());
+            for l in out {
+                writeln!(w, "{}", l).unwrap();
+            }
+        }
+        Some("run-xver") => {
+            let mut input = String::new();
+            std::io::stdin().read_to_string(&mut input).unwrap();
+            let out = xver::run_cases(&input);
             let stdout = std::io::stdout();
             let mut w = std::io::BufWriter::new(stdout.lock());
             for l in out {
